@@ -75,25 +75,26 @@ var timerTable = []time.Duration{0, 1, -5, time.Duration(math.MinInt64), time.Du
 // ---------------------------------------------------------------------------
 
 type coreRun struct {
-	sc     *Scenario
-	s      *sched.Sched
-	mu     sync.Mutex
-	ev     []M
-	root   tally.Scope
-	closer io.Closer
-	objIDs map[tally.Scope]int
-	mobj   map[interface{}]int
-	ticker *time.Ticker
-	passN  map[string]int
-	inPass map[string]string
-	ticks  int
-	curOp  map[string]string
-	rootDone bool
-	rcloseBy string
-	rcloseN  int
+	sc            *Scenario
+	s             *sched.Sched
+	mu            sync.Mutex
+	ev            []M
+	root          tally.Scope
+	closer        io.Closer
+	objIDs        map[tally.Scope]int
+	mobj          map[interface{}]int
+	ticker        *time.Ticker
+	passN         map[string]int
+	inPass        map[string]string
+	ticks         int
+	curOp         map[string]string
+	rootDone      bool
+	rcloseBy      string
+	rcloseN       int
+	bounds        map[string]*boundsSeen
 	rootCloseUsed bool
-	gtab   []uint64
-	panics []string
+	gtab          []uint64
+	panics        []string
 }
 
 func (r *coreRun) log(m M) {
@@ -192,6 +193,28 @@ func (r *coreRun) reporterCall(kind, name string, tags map[string]string, i int6
 	}
 }
 
+type boundsSeen struct {
+	kind string
+	ups  []uint64
+}
+
+func (r *coreRun) noteBound(id, kind string, bits uint64, isMax bool) {
+	r.mu.Lock()
+	defer r.mu.Unlock()
+	if r.bounds == nil {
+		r.bounds = map[string]*boundsSeen{}
+	}
+	b := r.bounds[id]
+	if b == nil {
+		b = &boundsSeen{kind: kind}
+		r.bounds[id] = b
+	}
+	b.kind = kind
+	if !isMax {
+		b.ups = append(b.ups, bits)
+	}
+}
+
 func stripName(t map[string]string) map[string]string {
 	c := map[string]string{}
 	for k, v := range t {
@@ -255,9 +278,11 @@ type coreHist struct {
 }
 
 func (h *coreHist) ValueBucket(lo, hi float64) tally.CachedHistogramBucket {
+	h.r.noteBound(renderID(h.name, h.tags), "value", math.Float64bits(hi), hi == math.MaxFloat64)
 	return &coreHandle{r: h.r, name: h.name, tags: h.tags, hi: hi}
 }
 func (h *coreHist) DurationBucket(lo, hi time.Duration) tally.CachedHistogramBucket {
+	h.r.noteBound(renderID(h.name, h.tags), "duration", uint64(hi), hi == math.MaxInt64)
 	return &coreHandle{r: h.r, name: h.name, tags: h.tags, hi: float64(hi)}
 }
 
@@ -416,6 +441,26 @@ func (r *coreRun) runThread(ts ThreadSpec) {
 				}
 			}
 			r.log(M{"e": "inc", "t": ts.Name, "id": renderID(qualify(h.prefix, op.M), h.tags) + fmt.Sprintf("[%v]", up), "o": h.obj, "v": 1, "inert": h.inert})
+		case "hnew":
+			// create a histogram with the V-th specification of the colliding pool and log the bounds it really uses
+			spec := c20Pool[op.V]
+			tb := bucketTables[0]
+			id := renderID(qualify(h.prefix, op.M), h.tags)
+			h.s.Histogram(op.M, tb.buckets(spec))
+			ws := append([]int{}, spec.Elems...)
+			sort.Ints(ws)
+			us := []int{}
+			uk := "none"
+			r.mu.Lock()
+			if b := r.bounds[id]; b != nil {
+				uk = b.kind
+				for _, x := range b.ups {
+					us = append(us, int(int64(x)))
+				}
+			}
+			r.mu.Unlock()
+			sort.Ints(us)
+			r.log(M{"e": "histbounds", "t": ts.Name, "id": id, "wkind": spec.Kind, "wsorted": ws, "ukind": uk, "usorted": us})
 		case "get":
 			var x interface{}
 			switch op.K {
